@@ -225,3 +225,95 @@ def c15(tier, seed):
                        "operation's (result, output hash) in the one-process run is compared with the same operation executed alone in a "
                        "fresh process image; after every operation the live-buffer counter must be 0 and every buffer-group set-up "
                        "event must show turn==0/over==false; distinct = (kind, previous kind, position) classes", 3000, stall_s=120.0)
+
+
+import schedprops  # noqa: E402
+
+
+def _sched_plan(tier, main_grid_count, term_count):
+    if tier == "quick":
+        return [(1, "mix", main_grid_count), (2, "mix", main_grid_count // 2), (1, "term", term_count), (4, "term", term_count // 2)]
+    return [(1, "mix", main_grid_count), (2, "mix", main_grid_count), (4, "mix", main_grid_count // 2),
+            (1, "term", term_count), (2, "term", term_count), (4, "term", term_count)]
+
+
+@prop("C03")
+def c03(tier, seed):
+    plan = _sched_plan(tier, 12000 if tier == "quick" else 400000, 3000 if tier == "quick" else 100000)
+    chk, agg, extra = schedprops.sched_check("C03", tier, seed, plan, "", 0)
+    extra["real_threads_under_tsan"] = _tsan_part(chk, "C03", tier)
+    return chk.finish(agg.n, len(agg.sigs),
+                      "each evaluation is one seeded schedule of the real pipeline (forced-include scheduler; strategies uniform / "
+                      "sticky 0,50,90 / PCT depth 1-3 / starve-one-thread, optional spurious wake-ups) on inputs of 0-6 chunks incl. exact "
+                      "multiples and T > chunks, T in {1,2,3,4,8} (termination grid: T 1-16); oracles: real ciphers -> output == "
+                      "OpenSSL reference (encrypt) / == plaintext (decrypt); tagging cipher streams -> every block id exactly once, by "
+                      "stream (chunk index mod T), per-stream order, at its own output offset; distinct = distinct (kind, n, T, schedule "
+                      "signature) where the signature hashes the sequence of scheduling choices",
+                      agg.samples, extra, min_evaluations=2000)
+
+
+@prop("C04")
+def c04(tier, seed):
+    plan = _sched_plan(tier, 8000 if tier == "quick" else 300000, 8000 if tier == "quick" else 300000)
+    chk, agg, extra = schedprops.sched_check("C04", tier, seed, plan, "", 0)
+    extra["real_threads_logical_deadlock_detector"] = _tsan_part(chk, "C04", tier)
+    extra["restatement"] = ("termination decided in bounded form: (a) no explored schedule reaches 'no runnable thread while one is "
+                            "unfinished' (exact under the scheduler), (b) every operation ends within the step bound (%d steps observed "
+                            "at most; bound 400000 quick / 2000000 thorough), (c) a CPU-time bound catches loops that contain no "
+                            "synchronisation; unbounded 'eventually' is not decidable from finite runs" % agg.max_steps)
+    return chk.finish(agg.n, len(agg.sigs),
+                      "schedules as for C03 plus the termination grid (every length with n mod c in [c-17, c+1] around 0, c, 2c; T 1-16; "
+                      "encrypt, decrypt, verify and both tagging directions; spurious wake-ups on in about a third); verdicts: "
+                      "deadlock = enabled set empty with an unfinished thread; step bound; CPU-time bound; final state: all buffers INV, "
+                      "live counter 0; distinct = distinct (kind, n, T, schedule signature)",
+                      agg.samples, extra, min_evaluations=2000)
+
+
+def _tsan_part(chk, pid, tier):
+    """Adds the real-thread ThreadSanitizer runs to check `chk`; returns evidence dict."""
+    count = 320 if tier == "quick" else 12000
+    plans = [(1, count // 2), (4, count // 2)]
+    ev = dict(executions=0, reports_in_chunk_buffers=0, reports_out_of_scope=0, out_of_scope_sites={}, delay_injected_events=0)
+    for bu, cnt in plans:
+        c, d, s, viols, sr = schedprops.run_tsan(chk, bu, cnt)
+        ev["executions"] += c.get("executions", 0)
+        ev["reports_in_chunk_buffers"] += c.get("tsan_reports_in_scope", 0)
+        ev["reports_out_of_scope"] += c.get("tsan_reports_out_of_scope", 0) + c.get("tsan_reports_other_types", 0)
+        ev["delay_injected_events"] += c.get("hook_events_with_delay_injection", 0)
+        for v in viols:
+            key = v.get("key", "")
+            if key.startswith("TSAN-OUT-OF-SCOPE"):
+                k = schedprops.tsan_sites_key(v)
+                ev["out_of_scope_sites"][k] = ev["out_of_scope_sites"].get(k, 0) + 1
+            elif key.startswith("C14|") and pid == "C14":
+                chk.add_violation("C14|tsan|race-in-chunk-buffer|" + schedprops.tsan_sites_key(v), v.get("what"), case=v.get("case_desc"),
+                                  detail=v.get("detail"), variant="chunk=%dB real threads" % (bu * 16))
+            elif key.startswith("C03|") and pid == "C03":
+                chk.add_violation(key, v.get("what"), case=v.get("case_desc"), variant="chunk=%dB real threads under TSan" % (bu * 16))
+        for cr in sr.crashes:
+            ev.setdefault("abnormal_real_thread_runs", {})
+            ev["abnormal_real_thread_runs"][cr.get("kind", "?")] = ev["abnormal_real_thread_runs"].get(cr.get("kind", "?"), 0) + 1
+            wanted = ("crash", "deadlock", "batch-only") if pid in ("C03", "C04") else ()
+            if cr.get("kind") in wanted:
+                chk.add_violation("%s|real-threads|%s|%s" % (pid, cr["kind"], cr["key"]), "%s on real threads with injected delays" % cr["kind"],
+                                  case=cr.get("desc"), stderr=(cr.get("alone_stderr") or cr.get("batch_stderr") or "")[-3000:])
+        for inc in sr.inconclusive:
+            chk.inconclusive.append(dict(case=inc.get("desc"), how="tsan run stalled, not reproduced alone"))
+    return ev
+
+
+@prop("C14")
+def c14(tier, seed):
+    plan = _sched_plan(tier, 10000 if tier == "quick" else 300000, 3000 if tier == "quick" else 100000)
+    chk, agg, extra = schedprops.sched_check("C14", tier, seed, plan, "", 0)
+    extra["tsan"] = _tsan_part(chk, "C14", tier)
+    if extra["tsan"]["executions"] < 100 and not chk.violations:
+        raise HarnessFailure("too few ThreadSanitizer executions")
+    return chk.finish(agg.n + extra["tsan"]["executions"], len(agg.sigs),
+                      "(b) every explored schedule (as C03/C04) is replayed through an ownership state machine over the hook events: "
+                      "worker looks / hand-outs / transforms only while its buffer is READY, I/O loads / exports / state changes only "
+                      "while EMPTY or UPDATING, legal transitions only, chunk k to buffer k mod T, blocks handed out and transformed in "
+                      "file order, every loaded chunk exported before reload; (a) real-thread executions under ThreadSanitizer with "
+                      "seeded delay injection at the hook points, reports classified by address: inside a chunk buffer = violation, "
+                      "elsewhere = logged out-of-scope; distinct = distinct (kind, n, T, schedule signature)",
+                      agg.samples, extra, min_evaluations=2000)
